@@ -15,6 +15,7 @@ package main
 //     9998..10002 deep, correspondence with impliedTypeGo (limit re-read from the source).
 
 import (
+	"bytes"
 	"encoding/json"
 	"fmt"
 	"math/big"
@@ -243,7 +244,10 @@ func runC15Deep(ctx *Ctx) {
 	}
 	for _, sh := range shapes {
 		per := strings.Count(sh.open, "[") + strings.Count(sh.open, "{")
-		for _, depth := range []int{9998, 10000, 10002} {
+		for _, depth := range []int{9998, 9999, 10000, 10001, 10002} {
+			if depth%per != 0 {
+				continue
+			}
 			n := depth / per
 			b := []byte(strings.Repeat(sh.open, n) + sh.core + strings.Repeat(sh.close, n))
 			tree := jsonTreeOfBytes(b)
@@ -272,4 +276,58 @@ func runC15Deep(ctx *Ctx) {
 			}
 		}
 	}
+}
+
+// docOKUGo mirrors JsonVal.docOKU on the token stream: in every object the NFC forms of the keys
+// are pairwise distinct (any order), numbers parse and satisfy NumOK.  (Compared with Lean's
+// predicate on every document: op json.docoku.)
+func docOKUGo(b []byte) bool {
+	dec := json.NewDecoder(bytes.NewReader(b))
+	dec.UseNumber()
+	var val func() bool
+	val = func() bool {
+		tok, err := dec.Token()
+		if err != nil {
+			return false
+		}
+		switch v := tok.(type) {
+		case json.Number:
+			p, err := cty.ParseNumberVal(string(v))
+			return err == nil && numReparses(p.AsBigFloat())
+		case json.Delim:
+			switch v {
+			case '[':
+				ok := true
+				for dec.More() {
+					if !val() {
+						ok = false
+					}
+				}
+				dec.Token()
+				return ok
+			case '{':
+				ok := true
+				seen := map[string]bool{}
+				for dec.More() {
+					kt, err := dec.Token()
+					if err != nil {
+						return false
+					}
+					k := cty.NormalizeString(kt.(string))
+					if seen[k] {
+						ok = false
+					}
+					seen[k] = true
+					if !val() {
+						ok = false
+					}
+				}
+				dec.Token()
+				return ok
+			}
+			return false
+		}
+		return true
+	}
+	return val()
 }
